@@ -12,7 +12,7 @@ def sh(cmd, **kw):
     return p.returncode, p.stdout
 
 def main():
-    d, pid = sys.argv[1], sys.argv[2]
+    d, pid = os.path.abspath(sys.argv[1]), sys.argv[2]
     checks = sys.argv[3:] or [pid]
     tier = os.environ.get("SEED_TIER", "quick")
     wt = "/tmp/ev/%s" % os.path.basename(d.rstrip("/"))
@@ -27,6 +27,7 @@ def main():
         report["applies"] = rc == 0
         if rc:
             report["apply_output"] = out[-800:]
+            print(json.dumps(report, indent=1))
             return report
         rc, out = sh("/verif/tools_suite.sh %s" % wt)
         report["suite"] = out.strip().split("\n")[-1]
